@@ -8,6 +8,11 @@ What is proved here (for all inputs, by induction):
  * for the block normal form WHERE → GROUP BY/aggregates → HAVING → projection → ORDER BY → LIMIT/OFFSET,
    clause-order evaluation of the assembled block equals pipeline-order evaluation of every admissible
    segment (`assemble_correct`, `assemble_correct_agg`), on the integer-valued core of Lemmas/Sp*.lean;
+ * THE SAME ON THE REFERENCE SEMANTICS `Model.Rel` (the semantics the differential run uses, with NULLs, text,
+   booleans, three-valued conditions, positional rows): `assemble_correct_rel` (rows equal as lists),
+   `assemble_correct_rel_perm` (a sort dropped by a following aggregate: rows equal as multisets, and as lists
+   again after the next sort without ties), `assemble_correct_rel_of_split` (the shape hypothesis is the split
+   table itself), Lemmas/RelBlock*.lean;
  * the glue at a split: rewriting column ids through an injective redirect map and restricting rows
    to the columns read commute with evaluation (`split_glue_rename`, `split_glue_restrict`);
  * edge cases of the documented semantics on the reference model `Model.Rel` (aggregate over the empty
@@ -19,6 +24,9 @@ import PrqlModel.Lemmas.Split
 import PrqlModel.Lemmas.SpAgg
 import PrqlModel.Lemmas.SpRename
 import PrqlModel.Model.Rel
+import PrqlModel.Lemmas.RelBlock
+import PrqlModel.Lemmas.RelBlockPerm
+import PrqlModel.Lemmas.RelBlockSplit
 namespace Props.C01
 open Gen.Split Model.Split Lemmas.Split
 
@@ -90,6 +98,110 @@ theorem assemble_correct_agg (seg : List Agg.Tr2) (b : Agg.Block2) (t : List Seg
     (h : Agg.AdmSeg2 b t seg) :
     seg.foldl (fun acc tr => Agg.step2 tr acc) (Agg.evalBlock2 b t) = Agg.evalBlock2 (seg.foldl Agg.push2 b) t :=
   Agg.assemble_correct2 seg b t h
+
+/-! ### T2 on the reference semantics `Model.Rel` -/
+section RelBlock
+open Model.Rel Lemmas.RelBlock
+
+/-- a table with three columns (int, int or NULL, text) and a segment
+`filter a<5 | derive x=a+b | sort {-b} | group {c} (aggregate {sum x, min b}) | filter sum>1 | sort {c} | take 1..1` -/
+def exTable : Table := { rows :=
+  [[.int 1, .int 10, .str ['x']], [.int 2, .int 7, .str ['y']], [.int 9, .int 3, .str ['x']],
+   [.int 3, .int 4, .str ['x']], [.int 4, .null, .str ['y']]] }
+def exSegStrict : List Tr :=
+  [.filter (.bin .lt (.col 0) (.lit (.int 5))), .sort [(.col 1, false)], .derive [.bin .add (.col 0) (.col 1)],
+   .sort [(.col 3, true)], .select [.col 2, .col 3], .take (some 2) (some 3), .take none (some 1)]
+def exSegAgg : List Tr :=
+  [.filter (.bin .lt (.col 0) (.lit (.int 5))), .derive [.bin .add (.col 0) (.col 1)],
+   .groupAgg [2] [(.sum, .col 3), (.min, .col 1)], .filter (.bin .gt (.col 1) (.lit (.int 1))),
+   .sort [(.col 0, true)], .take (some 1) (some 1)]
+def exSegDrop : List Tr :=
+  [.filter (.bin .lt (.col 0) (.lit (.int 5))), .sort [(.col 1, true)],
+   .groupAgg [2] [(.sum, .col 0), (.min, .col 1)], .filter (.bin .gt (.col 1) (.lit (.int 1))),
+   .sort [(.col 0, false)], .take (some 1) (some 1)]
+
+/-- T2-rel (one step): a `Model.Rel.step` on a table holding the block's rows = the block with the transform pushed -/
+theorem step_push_rel (resolve : Src → Table) (b : Block) (t : List Row) (tr : Tr) (T : Table)
+    (hT : T.rows = evalBlock b t) (hwf : b.Wf) (h : Adm b t tr) :
+    (step resolve T tr).rows = evalBlock (push b tr) t :=
+  step_push_rows resolve b t tr T hT hwf h
+
+/-- T2-rel: for every table with `w` columns and every admissible segment of
+filter / derive / select / sort / take / aggregate / group-aggregate, the rows the pipeline denotes are the rows of
+the ONE assembled SELECT block evaluated in SQL clause order
+(WHERE → GROUP BY/aggregates → HAVING → ORDER BY → projection → LIMIT/OFFSET, computed columns inlined) -/
+theorem assemble_correct_rel (resolve : Src → Table) (w : Nat) (seg : List Tr) (T : Table)
+    (hw : ∀ r ∈ T.rows, r.length = w) (h : AdmSeg (Block.init w) T.rows seg) :
+    (seg.foldl (step resolve) T).rows = evalBlock (assemble w seg) T.rows :=
+  Lemmas.RelBlock.assemble_correct resolve w seg T hw h
+
+example : (∀ r ∈ exTable.rows, r.length = 3) ∧ AdmSeg (Block.init 3) exTable.rows exSegStrict := by
+  refine ⟨by decide, rfl, ⟨rfl, Or.inl rfl⟩, trivial, ⟨rfl, Or.inr (by decide)⟩, trivial, ?_, ?_, trivial⟩
+  · intro a h; cases h; decide
+  · intro a h; cases h
+example : evalBlock (assemble 3 exSegStrict) exTable.rows = [[.str ['y'], .int 9]] := by decide
+
+example : (∀ r ∈ exTable.rows, r.length = 3) ∧ AdmSeg (Block.init 3) exTable.rows exSegAgg := by
+  refine ⟨by decide, rfl, trivial, ⟨rfl, rfl, rfl⟩, rfl, ⟨rfl, Or.inl rfl⟩, ?_, trivial⟩
+  intro a h; cases h; decide
+example : evalBlock (assemble 3 exSegAgg) exTable.rows = [[.str ['y'], .int 9, .int 7]] := by decide
+
+/-- T2-rel for a whole query of the differential run: `Model.Rel.evalSrc` of a program that is one pipeline over a
+base table, with an admissible segment, is ONE SELECT block over that table -/
+theorem evalSrc_is_one_block (db : Db) (p : Pipe) (w : Nat)
+    (hw : ∀ r ∈ (resolveSrc db [] p.src).rows, r.length = w)
+    (h : AdmSeg (Block.init w) (resolveSrc db [] p.src).rows p.trs) :
+    (evalSrc db { lets := [], main := p }).rows = evalBlock (assemble w p.trs) (resolveSrc db [] p.src).rows :=
+  evalSrc_assemble db p w hw h
+
+example : (evalSrc [exTable.rows] { lets := [], main := { src := .base 0, trs := exSegAgg } }).rows
+    = [[.str ['y'], .int 9, .int 7]] := by decide
+
+/-- T2-rel with a sort dropped by an aggregate (`sort | group (aggregate)`; the compiler does not emit that sort):
+the rows agree as multisets, and as lists when the segment re-sorts without ties afterwards -/
+theorem assemble_correct_rel_perm (resolve : Src → Table) (w : Nat) (seg : List Tr) (T : Table)
+    (hw : ∀ r ∈ T.rows, r.length = w) (h : AdmSegP true (Block.init w) T.rows seg) :
+    (seg.foldl (step resolve) T).rows.Perm (evalBlock (assemble w seg) T.rows) ∧
+    (finalEx true (Block.init w) seg = true →
+      (seg.foldl (step resolve) T).rows = evalBlock (assemble w seg) T.rows) :=
+  Lemmas.RelBlock.assemble_correct_perm resolve w seg T hw h
+
+example : (∀ r ∈ exTable.rows, r.length = 3) ∧ AdmSegP true (Block.init 3) exTable.rows exSegDrop ∧
+    finalEx true (Block.init 3) exSegDrop = true := by
+  refine ⟨by decide, ⟨rfl, ⟨rfl, Or.inl ⟨rfl, rfl⟩⟩, ⟨rfl, rfl, rfl, Or.inr ?_⟩, rfl,
+    ⟨rfl, Or.inr (by decide)⟩, ⟨rfl, ?_⟩, trivial⟩, by decide⟩
+  · intro a ha hm
+    simp only [List.mem_cons, List.not_mem_nil, or_false] at ha
+    rcases ha with rfl | rfl
+    · simp at hm
+    · intro x hx y hy; revert x y; decide
+  · intro a h; cases h; decide
+
+/-- T2-rel with the split table as the hypothesis on the shape: a segment of supported transforms in which no
+transform is followed by one it must be split from (`mustSplit`) needs only the DATA conditions
+(take bounds ≥ 1, no ties for a sort replacing a sort, no sort dropped by an aggregate) -/
+theorem assemble_correct_rel_of_split (resolve : Src → Table) (w : Nat) (seg : List Tr) (T : Table)
+    (hw : ∀ r ∈ T.rows, r.length = w) (hs : ∀ tr ∈ seg, supported tr = true) (hns : NoSplit seg)
+    (hd : DataAdmSeg (Block.init w) T.rows seg) :
+    (seg.foldl (step resolve) T).rows = evalBlock (assemble w seg) T.rows :=
+  assemble_correct_of_noSplit resolve w seg T hw hs hns hd
+
+example : (∀ tr ∈ exSegAgg, supported tr = true) ∧ NoSplit exSegAgg := by
+  refine ⟨by decide, ?_⟩
+  simp [NoSplit, exSegAgg, kindOf, Model.Split.mustSplit]
+
+/-- an aggregate does not depend on the order of its input rows (why the sort may be dropped); for min/max the
+column must not hold "equal but different" values (`true` and `1`) -/
+theorem aggregate_order_independent_rel (f : AggFn) {l1 l2 : List Value} (hp : l1.Perm l2)
+    (hf : (f = .min ∨ f = .max) → Lemmas.AggPerm.ValAntisym l1) : aggVal f l1 = aggVal f l2 :=
+  Lemmas.AggPerm.aggVal_perm f hp hf
+
+example : Lemmas.AggPerm.ValAntisym [.int 3, .null, .str ['a'], .int 3, .int 5] := by
+  intro x hx y hy; revert x y; decide
+/-- the hypothesis is needed: `min` over a column mixing booleans and integers depends on the order -/
+example : aggVal .min [.bool true, .int 1] ≠ aggVal .min [.int 1, .bool true] := by decide
+
+end RelBlock
 
 /-- T3a: the redirect of column ids at a split is an α-renaming: it commutes with evaluation -/
 theorem split_glue_rename (ρ : Nat → Nat) (hinj : ∀ a b, ρ a = ρ b → a = b) (seg : List Seg.Tr) (t : List Seg.Row) :
